@@ -83,7 +83,10 @@ SCALAR_C = set(BUILTIN.values()) - {'void'}
 STD_TYPES = [(r'std::hash<double>', 'StdHashD', 'ptr')]
 # std:: functions on doubles that have a model in stubs/common.h (used by e_CallExpr when the spec gives no //@free rule)
 STD_DOUBLE_FREE = {'floor(double)': 'd_floor', 'ceil(double)': 'd_ceil', 'real(double)': 'd_real', 'imag(double)': 'd_imag',
-                   'min(double,double)': 'd_min', 'max(double,double)': 'd_max'}
+                   'min(double,double)': 'd_min', 'max(double,double)': 'd_max',
+                   # <complex> free functions on the cplx model (stubs/cplx.h); a `//@free abs(cplx) => ...` rule of the spec has priority
+                   'real(cplx)': 'c_real', 'imag(cplx)': 'c_imag', 'conj(cplx)': 'c_conj', 'norm(cplx)': 'c_norm', 'abs(cplx)': 'c_abs',
+                   'arg(cplx)': 'c_arg', 'abs(double)': 'd_abs'}
 
 def split_top(s, sep=','):
     out = []; depth = 0; cur = ''
